@@ -565,6 +565,15 @@ fn macro_models(l: &mut Local) {
         ));
     }
     {
+        // several constraints that carry the same name (a name mapped over a family of variables): every one
+        // of them is a row, in both doors
+        let mut model = ModelBuilder::new();
+        vars! { model => v[3]: nonneg(0.0, 9.0); };
+        let caps: Vec<BuilderConstraint> = v.iter().enumerate().map(|(i, h)| BuilderConstraint::new(Expr::from(*h), rooc::Comparison::LessOrEqual, Expr::from((i + 1) as f64), "cap".to_string())).collect();
+        let mb = model.maximize(rooc::builder::sum(v.iter().cloned())).with(caps[0].clone()).with_all(caps[1..].iter().cloned()).with(constraint!(cap: v[0] + v[1] <= 2.5));
+        checks.push(("duplicate-constraint-names", mb, "max v_0 + v_1 + v_2\ns.t.\n    cap: v_0 <= 1\n    cap: v_1 <= 2\n    cap: v_2 <= 3\n    cap: v_0 + v_1 <= 2.5\ndefine\n    v_0, v_1, v_2 as NonNegativeReal(0, 9)\n"));
+    }
+    {
         // strict relations: rules 4 and 5 (no solver accepts them; the linear models must agree)
         let mut model = ModelBuilder::new();
         vars! { model => x: real(-3.0, 3.0); y: nonneg(0.0, 4.0); };
